@@ -29,6 +29,7 @@ RULES = {
     "R-READ-NONEMPTY": iterator.r_read_nonempty,
     "R-EOF-GENUINE": iterator.r_eof_genuine,
     "R-LIMIT": iterator.r_alloc,
+    "R-IOERR": iterator.r_ioerr,
     "L-ADVANCE": iterator.r_advance,
     "R-RECOVER": iterator.r_recover,
     "R-TOL": iterator.r_tol,
@@ -40,6 +41,7 @@ RULES = {
     "R-CLOSE": flow.r_eof_flag,
     "R-OVERRUN-ALL": flow.r_overrun_all,
     "L-BUFFER-PROGRESS": flow.r_buffer_progress,
+    "R-RECOVER-STRETCH": flow.r_recover_stretch,
 }
 
 PROPERTIES = {
@@ -106,7 +108,7 @@ PROPERTIES = {
                        "entry lengths after appends only.  Nested writes inside a Full master are summarised under assumption A-REC.",
     },
     "C04": {
-        "rules": ["R-STALE", "R-READ-NONEMPTY", "R-EOF-GENUINE"],
+        "rules": ["R-STALE", "R-READ-NONEMPTY", "R-EOF-GENUINE", "R-OFFSET-BOOK"],
         "level": "proof",
         "explanation": "Abstract interpretation of next()/try_recover() from any invariant-satisfying state, for any Read implementation: every "
                        "byte the parser looks at lies below buffered_byte_length (no stale data), read() is never handed an empty slice (so Ok(0) "
@@ -127,14 +129,14 @@ PROPERTIES = {
                        "Measured peak heap is not decided.",
     },
     "C14": {
-        "rules": ["R-RECOVER"],
+        "rules": ["R-RECOVER", "R-RECOVER-STRETCH"],
         "level": "proof",
         "explanation": "Abstract interpretation of try_recover() from any object state satisfying the buffer invariant: panic-freedom, "
                        "monotonicity of the stream offset (the distance subtraction cannot underflow) and the set of error variants it can "
                        "return.  Where recovery resumes (first sentence of the property) is behavioural and not decided.",
     },
     "C05": {
-        "rules": ["R-PANIC-ITER", "R-SPEC-CONSIST", "R-PANIC-PAYLOAD", "L-ADVANCE", "L-BUFFER-PROGRESS"],
+        "rules": ["R-PANIC-ITER", "R-SPEC-CONSIST", "R-PANIC-PAYLOAD", "L-ADVANCE", "L-BUFFER-PROGRESS", "R-IOERR"],
         "level": "proof",
         "explanation": "Abstract interpretation of next() and try_recover() from any object state satisfying the (inductively proved) buffer "
                        "invariant: every compiler-inserted assert, std precondition and explicit panic reachable from the public API is discharged "
